@@ -54,6 +54,8 @@ structure St where
   strict : Bool
   cinc : Bool
   graph : Graph Nm
+  /-- calls added by `DuplicateKernel` to routines outside a module: they come without an interface include -/
+  noinc : List Nm := []
 
 def findDef (ds : List Def) (n : Nm) : Option Def := ds.find? (fun d => d.name = n)
 
@@ -149,7 +151,8 @@ def dupOne (suf msuf : String) (P : List Nm) (st : St) (t : Nm) : St :=
   let new := if fresh then (cloneDefs st.defs suf msuf t).filter (fun d => !(st.cache.any (fun e => e.1 = d.name))) else []
   { st with
     defs := (st.defs.map (fun d => if d.name ∈ P then { d with refs := insertAfter t t' d.refs } else d)) ++ new
-    cache := st.cache ++ new.map (fun d => (d.name, d.name)) }
+    cache := st.cache ++ new.map (fun d => (d.name, d.name))
+    noinc := if t.scope == "" then t' :: st.noinc else st.noinc }
 
 def opDup (k suf msuf : String) (st : St) : Except Err St :=
   let P := processed st
@@ -185,7 +188,7 @@ def opWrap (plan : Bool) (msuf : String) (st : St) : Except Err St :=
   let renD : Nm → Nm := fun n => if n ∈ W then .proc (n.loc ++ msuf) n.loc else n
   -- `update_imports`: every `#include "x.intfb.h"` of a processed routine becomes `USE x<msuf>, ONLY: x`
   let renR : Nm → Nm := fun r => match r with
-    | .proc "" l => if st.cinc then .proc (l ++ msuf) l else r
+    | .proc "" l => if st.cinc && r ∉ st.noinc then .proc (l ++ msuf) l else r
     | _ => r
   let files := (st.defs.filter (fun d => d.name ∈ W)).map (·.file)
   let defs := st.defs.map (fun d =>
@@ -313,7 +316,14 @@ def noDupAfterRem : List Op → Bool
   | [] => true
   | op :: ops => (!isRem op || !ops.any isDup) && noDupAfterRem ops
 
+/-- no routine with the role `driver` is called, and none shares its module with a kernel (known-finding class
+`driver-callee` otherwise) -/
+def noDriverCallee (ds : List Def) : Bool :=
+  ds.all (fun d => !d.driver ||
+    (ds.all (fun e => d.name ∉ e.refs) &&
+     ds.all (fun e => !(e.name.isProc && e.name.scope == d.name.scope && d.name.scope != "" && !e.driver))))
+
 def Covered (plan : Bool) (st : St) (ops : List Op) : Bool :=
-  splitLayout st.defs && ops.all opLower && !ops.any isSub && depLast ops && (!plan || noDupAfterRem ops)
+  splitLayout st.defs && noDriverCallee st.defs && ops.all opLower && !ops.any isSub && depLast ops && (!plan || noDupAfterRem ops)
 
 end LokiModel.C25
